@@ -17,7 +17,7 @@ Reset == /\ Ev("reset")
          /\ sock' = [d \in Dirs |-> <<>>] /\ early' = <<>> /\ lost' = <<>>
          /\ buf' = [d \in Dirs |-> <<>>] /\ dst' = [d \in Dirs |-> <<>>]
          /\ ppc' = "connect" /\ cpc' = [d \in Dirs |-> "idle"]
-         /\ open' = [e \in {"client", "target"} |-> TRUE]
+         /\ open' = [e \in {"client", "target"} |-> TRUE] /\ cut' = {}
 Got(d)  == LET i == TraceLog[l].i IN Len(Data(dst[d])) >= i /\ Data(dst[d])[i] = i /\ UNCHANGED vars
 Eof(d)  == dst[d] # <<>> /\ Last(dst[d]) = FIN /\ UNCHANGED vars
 Logged == \/ Reset
